@@ -220,7 +220,13 @@ func run(c Case) hx.Verdict {
 					defer guard(g, a)
 					switch a {
 					case "append":
-						e := fmt.Errorf("E-%d-%d", g, atomic.AddInt64(&serial, 1))
+						n := atomic.AddInt64(&serial, 1)
+						var e error = fmt.Errorf("E-%d-%d", g, n)
+						if n%4 == 0 {
+							// an error value of a slice type (a list of field errors): a perfectly good
+							// error that can be neither hashed nor compared with ==
+							e = listErr{fmt.Sprintf("L-%d-%d", g, n), "second-line"}
+						}
 						amu.Lock()
 						appended = append(appended, e)
 						amu.Unlock()
@@ -385,7 +391,7 @@ func run(c Case) hx.Verdict {
 	for _, e := range appended {
 		found := false
 		for _, g := range got {
-			if g == e {
+			if sameErr(g, e) {
 				found = true
 				break
 			}
@@ -495,6 +501,21 @@ func run(c Case) hx.Verdict {
 	}
 	v.NonTrivial = (len(c.Actions) >= 2 && stopGoroutines >= 2 && r.pairs > 0) || (c.LateChild > 0) || c.RaceChild
 	return v
+}
+
+// listErr is an error whose dynamic type is a slice (uncomparable, unhashable).
+type listErr []string
+
+func (l listErr) Error() string { return strings.Join(l, "; ") }
+
+// sameErr compares two error values without == on uncomparable dynamic types.
+func sameErr(a, b error) bool {
+	la, oka := a.(listErr)
+	lb, okb := b.(listErr)
+	if oka || okb {
+		return oka && okb && len(la) > 0 && len(lb) > 0 && &la[0] == &lb[0]
+	}
+	return a == b
 }
 
 func firstLine(s string) string {
